@@ -78,7 +78,7 @@ def run(ctx):
                 "registration) and (thorough) on the release build: W1 simultaneous claims of one nick (two-phase NICK|USER, "
                 "USER|NICK, one segment) and simultaneous renames: exactly one winner, losers gated (451), winner survives their "
                 "departure; W2 simultaneous first joins: one founder, all members, each joiner's 353 + JOIN lines form one total "
-                "order; W3 +l limit never exceeded (snapshots during the storm), exactly L members and K-L 471s; W4 pipelined "
+                "order; W3 +l limit never exceeded (snapshots during the storm; every other joiner holds an invitation), exactly L members and K-L 471s; W4 pipelined "
                 "numbered PRIVMSGs/PINGs: replies in command order, per (sender, receiver) strictly increasing without gap or "
                 "duplicate, prefixes true; W5 random churn bursts: invariants I1-I8 at quiescence, every connection answers; W7 "
                 "pipelined floods to a prompt and to a late-draining reader; W8 a connection with a 4 KiB receive buffer pipelines "
